@@ -23,6 +23,9 @@ void pend_viol(const char *prop, const char *sig, const char *fmt, ...)
 
 /* ------------------------------------------------------------------ per-event snapshots */
 typedef struct { int pid; int64_t prio; double etime; } gent;
+/* arrival order at a waiting list, kept by the harness: at most one process enters a given list per event, so the event
+ * number in which it (last) entered orders same-instant arrivals of equal priority */
+static uint64_t garr[MAXGUARD][MAXP];
 #define MAXGENT 48
 static gent gbefore[MAXGUARD][MAXGENT]; static int ngbefore[MAXGUARD];
 static uint64_t pool_before[MAXPOOL][MAXP];
@@ -74,6 +77,7 @@ void mon_reset(void)
     memset(cond_observes, 0, sizeof cond_observes);
     wk_reset();
     nfired = 0;
+    memset(garr, 0, sizeof garr);
     memset(rec_cand, 0, sizeof rec_cand);
     main_csr = _mm_getcsr() & ~0x3fu;
 }
@@ -281,6 +285,7 @@ void mon_call_ret(proc *pr, int64_t ret)
     if (pr->finished) viol("C09", "ran-after-end", "process %d continued (returned from %s with %" PRId64 ") after it had ended", pr->id, opname[pr->op], ret);
     if (cmb_process_current() != pr->pp) viol("C03", "wrong-process", "process %d resumed but cmb_process_current() differs", pr->id);
     if (ret != CMB_PROCESS_SUCCESS) pr->last_nonzero_ret_seq = W.seq + 1;
+    if (ret == CMB_PROCESS_PREEMPTED) pr->last_preempted_ret_seq = W.seq + 1;
     switch (pr->op) {
     case OP_HOLD: {
         cause *hc = NULL;
@@ -506,6 +511,14 @@ void mon_pred_eval(int pid, const struct cmb_process *prc, bool result)
     if (prc != pr->pp) viol("C13", "predicate-wrong-process", "predicate of process %d evaluated with another process pointer", pid);
     if (result) { pr->cond_true_seen = true; pr->cond_true_time = tnow(); }
     evalcount[pid]++;
+    /* C07 says "always": application code that runs in the middle of a library call (a predicate evaluated through a forwarded
+     * signal) must see consistent books too */
+    for (int p = 0; p < W.npool; p++) {
+        uint64_t sum = 0;
+        for (int i = 0; i < W.np; i++) if (PR[i].created) sum += cmb_resourcepool_held_by_process(W.pool[p], PR[i].pp);
+        if (sum != cmb_resourcepool_in_use(W.pool[p]))
+            viol("C07", "in-use-sum/seen-by-predicate", "pool %d: a predicate evaluated inside a library call sees in_use=%" PRIu64 " while the processes hold %" PRIu64 " in total", p, cmb_resourcepool_in_use(W.pool[p]), sum);
+    }
     wk_eval(pr, pr->op == OP_CWAIT ? pr->obj : -1, result);
     TR3("pred", pid, result, in_explicit);
     if (in_explicit) for (int i = 0; i < expl_n; i++) if (expl_pid[i] == pid) { expl_evals[i]++; expl_res[i] = result; }
@@ -757,10 +770,12 @@ void mon_after_event(void)
                 int a2 = -1;
                 for (int a = 0; a < na; a++) if (after[a].pid == kp) a2 = a;
                 if (a2 < 0) continue;
-                const bool before_rank = gbefore[g][b2].prio > gbefore[g][b].prio
-                                         || (gbefore[g][b2].prio == gbefore[g][b].prio && gbefore[g][b2].etime < gbefore[g][b].etime);
+                const bool earlier = gbefore[g][b2].etime < gbefore[g][b].etime
+                                     || (gbefore[g][b2].etime == gbefore[g][b].etime && garr[g][kp] != 0 && garr[g][gp] != 0 && garr[g][kp] < garr[g][gp]);
+                const bool before_rank = gbefore[g][b2].prio > gbefore[g][b].prio || (gbefore[g][b2].prio == gbefore[g][b].prio && earlier);
                 const int64_t gprio_now = G->pp->priority;
-                const bool after_rank = after[a2].prio > gprio_now || (after[a2].prio == gprio_now && after[a2].etime < gbefore[g][b].etime);
+                const bool after_rank = after[a2].prio > gprio_now || (after[a2].prio == gprio_now && after[a2].etime <= gbefore[g][b].etime && earlier);
+                if (gbefore[g][b2].prio == gbefore[g][b].prio && gbefore[g][b2].etime == gbefore[g][b].etime) PROBE("c06.grant_among_same_instant_arrivals");
                 if (before_rank && after_rank) {
                     char sig[64]; snprintf(sig, sizeof sig, "lower-ranked-served-first/%s", gcname(W.guards[g].cls));
                     viol("C06", sig, "process %d (priority %" PRId64 ", waiting since %g) was woken while process %d (priority %" PRId64 ", waiting since %g) kept waiting",
@@ -777,6 +792,7 @@ void mon_after_event(void)
             for (int k = 0; k < ngbefore[g]; k++) if (gbefore[g][k].pid == after[a].pid) b = k;
             if (b >= 0 && !PR[after[a].pid].ran_this_event && after[a].etime != gbefore[g][b].etime)
                 viol("C06", "entry-time-changed", "process %d kept waiting in a %s list but its waiting-since time changed from %g to %g", after[a].pid, gcname(W.guards[g].cls), gbefore[g][b].etime, after[a].etime);
+            if (b < 0 || PR[after[a].pid].ran_this_event) garr[g][after[a].pid] = ev_seq + 1;     /* entered (or left and entered again) in this event */
             if (b < 0 && after[a].etime != now)
                 viol("C06", "entry-time-wrong", "process %d entered a %s list at t=%g with waiting-since time %g", after[a].pid, gcname(W.guards[g].cls), now, after[a].etime);
         }
@@ -920,7 +936,7 @@ void mon_boundary_eval(void)
             else if (c->kind == CK_PEND) pend_viol("C09", "waiter-not-resumed", "process %d waits for process %d which ended at t=%g, and was not resumed in that instant", i, c->ref, c->due);
             else if (c->kind == CK_EV) pend_viol("C04", "waitevent-overdue", "process %d waits for event %d which was %s at t=%g", i, c->ref, c->value ? "cancelled" : "executed", c->due);
             else if (c->kind == CK_GCANCEL) pend_viol("C13", "cancel-not-delivered", "process %d was cancelled from a waiting list at t=%g but not resumed with the cancelled code", i, c->due);
-            else if (c->kind == CK_PREEMPT && pr->last_nonzero_ret_seq <= c->born_seq)
+            else if (c->kind == CK_PREEMPT && pr->last_preempted_ret_seq <= c->born_seq)   /* one notice may stand for several preemptions in one instant, another signal may not stand for it */
                 pend_viol(c->ref >= 100 ? "C07" : "C04", "preempt-notice-missing", "process %d lost %s %d by preemption at t=%g but was not notified in that instant", i, c->ref >= 100 ? "pool" : "resource", c->ref % 100, c->due);
         }
         if (pr->op == OP_HOLD && pr->hold_due <= now)
